@@ -77,6 +77,7 @@ CONSTANTS N,           \* number of streams
           W0,          \* initial HTTP/2 stream send window, in units
           Ws,          \* sizes a sender may write in one call
           Aborts,      \* BOOLEAN: senders may abort
+          EarlyResp,   \* BOOLEAN: a backend may answer before it has the whole request (full duplex on one stream)
           Deviations
 
 ASSUME N \in {1, 2}
@@ -147,11 +148,14 @@ UnreadData(e, s) == Cardinality({i \in 1..Len(inK[e]) : inK[e][i].t = "d" /\ inK
 Arm(ev, e) == [ev EXCEPT ![e] = @ \cup {"W"}]
 
 \* ---------------------------------------------------------------- peers ----
-\* H1 client connections carry one exchange at a time; backends answer after the whole request
+\* H1 client connections carry one exchange at a time; backends answer after the whole request - or, with EarlyResp,
+\* while the request is still arriving: both pipes of the stream then move at once, and on a shared HTTP/2 backend
+\* connection the response DATA and the WINDOW_UPDATEs for the request travel in one FIFO while the request DATA and
+\* the WINDOW_UPDATEs for the response fill the other
 MayStart(p) ==
   /\ ~killed
-  /\ p[2] = "req" /\ FrontProto = "h1" => \A t \in Streams : t < p[1] => endRcvd[<<t, "resp">>] # "none"
-  /\ p[2] = "resp" => endRcvd[<<p[1], "req">>] = "clean"
+  /\ p[2] = "req" /\ FrontProto = "h1" => \A t \in Streams : t < p[1] => (endRcvd[<<t, "resp">>] # "none" /\ endSent[<<t, "req">>] # "none")
+  /\ p[2] = "resp" => (EarlyResp \/ endRcvd[<<p[1], "req">>] = "clean")
 
 Peer_Write(p, k) ==
   LET e == RdEp(p) IN
@@ -379,12 +383,16 @@ ReaderOK(e) ==
 \* The same heart, in the fields a mux_ready_exit snapshot of the real session can be projected to (it cannot
 \* see kfull): the writer of pending output wants WRITABLE, or waits for a window with its connection being
 \* read, or its connection is not up yet / already going down; the last disjunct is the open deviation.
-ParkRecOK(r) == \/ r.wint
-                \/ r.winblocked /\ r.rint
-                \/ r.handshake \/ r.closing \/ r.dead
-                \/ Dev("HolBlocking") /\ r.winblocked /\ r.rparked
+\* ... and (halfzero) the connection's control-frame buffer is never marked for writing while a frame of the stream is
+\* only partly on the wire: frames are atomic items in this module, spec/H2Wire.tla is the model of the writer below
+\* them (H2Wire!P_Markers: expect = "zero" => curf = 0) and the snapshot shows that marker and the stream's output.
+ParkRecOK(r) == /\ ~r.halfzero
+                /\ \/ r.wint
+                   \/ r.winblocked /\ r.rint
+                   \/ r.handshake \/ r.closing \/ r.dead
+                   \/ Dev("HolBlocking") /\ r.winblocked /\ r.rparked
 ModelParkRec(p) == [wint |-> "W" \in interest[WrEp(p)], winblocked |-> WindowBlocked(p), rint |-> "R" \in interest[WrEp(p)],
-                    handshake |-> FALSE, closing |-> FALSE, dead |-> FALSE, rparked |-> parked[WrEp(p)] # 0]
+                    handshake |-> FALSE, closing |-> FALSE, dead |-> FALSE, rparked |-> parked[WrEp(p)] # 0, halfzero |-> FALSE]
 Park_OK == (SozuParked /\ ~killed) => \A p \in Pipes : Pending(p) => ParkRecOK(ModelParkRec(p))
 
 Quiescent_OK == (SozuParked /\ ~killed) => (\A p \in Pipes : WakeOK(ParkRec(p))) /\ (\A e \in Endpoints : ReaderOK(e))
